@@ -11,6 +11,7 @@ from .common import Report, finish
 
 PROPS = {
     "C12": "analysis.props.p_c12",
+    "C15": "analysis.props.p_c15",
 }
 
 
